@@ -1200,6 +1200,42 @@ class Interp:
         """`let mut i = k; while i < N { ..; i += 1 }` is the loop `for _ in k..N`: when one carried integer starts at a constant,
         is compared `i < N` (N loop-invariant) at the top of every iteration and is left as i + 1 by every iteration, the loop gets
         the iterator Range{k, N} like its `for` spelling."""
+        # fill spelling: `while v.len() < N { ..; v.push(x) }` with v empty at entry and exactly one push per iteration
+        for p in W:
+            if self.read(st, p) != ('vec', ()):
+                continue
+            lv = ('lv', lvname, path_str(p))
+            bound = None
+            ok = bool(bodies)
+            for b in bodies:
+                first = [(t, v) for t, v in b['cons'] if t[0] == 'bin' and t[1] in CMP_OPS][:1]
+                if not first:
+                    ok = False
+                    break
+                t, v = first[0]
+                tv = (v != 0) if isinstance(v, int) else True
+                if t[1] == 'Lt' and t[2] == ('len', lv) and tv:
+                    n_ = t[3]
+                elif t[1] == 'Le' and t[3] == ('len', lv) and not tv:
+                    n_ = t[2]
+                else:
+                    ok = False
+                    break
+                if any(isinstance(x, tuple) and x and x[0] == 'lv' and x[1] == lvname for x in subterms(n_)) or \
+                        (bound is not None and n_ != bound):
+                    ok = False
+                    break
+                bound = n_
+                pushes = [e for e in flat_effects(b['eff']) if e[0] == 'push' and e[1] == p]
+                others = [e for e in flat_effects(b['eff']) if e[0] in ('mutate', 'store') and e[1] == p]
+                if len(pushes) != 1 or others:
+                    ok = False
+                    break
+            if ok and bound is not None:
+                info['kind'] = 'for'
+                info['counted'] = path_str(p)
+                info['iter'] = agg('std::ops::Range<usize>', 'Range', 0, (('start', ('int', 0)), ('end', bound)))
+                return
         # countdown spelling: `let mut left = N; while left > 0 { ..; left -= 1 }`
         for p in W:
             n0 = self.read(st, p)
@@ -1903,6 +1939,17 @@ class Interp:
                 self.write(st, a0[1], ('reversed', old))
                 return UNIT
             return None
+        if decl in ('std::ops::FnMut::call_mut', 'std::ops::Fn::call', 'std::ops::FnOnce::call_once') and not self.local_body(t) \
+                and len(args) == 2:
+            # a callback handed to a higher-order helper (`read_one(source)` with `read_one: F`): call what the value is
+            f_ = a0
+            for _ in range(3):
+                if f_[0] == 'ref':
+                    f_ = self.read(st, f_[1])
+                else:
+                    break
+            if f_[0] in ('closure', 'fnitem') and is_agg(args[1], 'tuple'):
+                return self.apply_callable(st, fr, f_, [v for _, v in args[1][4]], dest, t['target'], site)
         if decl in ('std::cmp::PartialEq::eq', 'std::cmp::PartialEq::ne') and not self.local_body(t):
             x = self.strip_ref(st, a0)
             y = self.strip_ref(st, args[1])
